@@ -462,7 +462,10 @@ func (e *Enc) assertsAt(fr *frame, b *ssa.BasicBlock, idx int, in ssa.Instructio
 	for _, a := range e.C.AssertsAt {
 		anchor := a.Anchor
 		// an anchor may name the kind of statement it means: "binop:", "call:", "store:", "return:"
-		for _, kd := range []string{"binop", "call", "store", "return", "mapupdate"} {
+		if _, isUn := in.(*ssa.UnOp); isUn && !strings.HasPrefix(anchor, "unop:") {
+			continue
+		}
+		for _, kd := range []string{"binop", "call", "store", "return", "mapupdate", "unop"} {
 			if strings.HasPrefix(anchor, kd+":") {
 				anchor = strings.TrimPrefix(anchor, kd+":")
 				ok := false
@@ -477,6 +480,8 @@ func (e *Enc) assertsAt(fr *frame, b *ssa.BasicBlock, idx int, in ssa.Instructio
 					ok = kd == "return"
 				case *ssa.MapUpdate:
 					ok = kd == "mapupdate"
+				case *ssa.UnOp:
+					ok = kd == "unop"
 				}
 				if !ok {
 					anchor = "\x00never"
@@ -539,6 +544,54 @@ func (e *Enc) assertsAt(fr *frame, b *ssa.BasicBlock, idx int, in ssa.Instructio
 	}
 }
 
+// thenReturns: a call anchored by a then_returns clause must be followed, in its block, only by
+// the deferred calls and the return.
+func (e *Enc) thenReturns(fr *frame, b *ssa.BasicBlock, idx int, in ssa.Instruction, st *bstate) {
+	if e.C == nil || len(e.C.ThenReturns) == 0 || fr.inlined || !in.Pos().IsValid() {
+		return
+	}
+	if _, ok := in.(*ssa.Call); !ok {
+		return
+	}
+	line := e.P.srcLine(in.Pos())
+	for _, a := range e.C.ThenReturns {
+		if !strings.Contains(line, a) {
+			continue
+		}
+		ok := false
+		for _, nx := range b.Instrs[idx+1:] {
+			switch y := nx.(type) {
+			case *ssa.RunDefers, *ssa.DebugRef:
+				continue
+			case *ssa.Return:
+				ok = true
+			case *ssa.Call:
+				// an argument evaluated on the same line (fmt.Errorf(...) inside the anchored call): the
+				// obligation belongs to the last call of the line
+				if y.Pos().IsValid() && strings.Contains(e.P.srcLine(y.Pos()), a) {
+					ok = true
+				}
+			default:
+				if v, isV := nx.(ssa.Value); isV {
+					// pure value computations feeding that later call (allocation of the variadic slice, boxing)
+					_ = v
+					switch nx.(type) {
+					case *ssa.Alloc, *ssa.MakeInterface, *ssa.IndexAddr, *ssa.Slice, *ssa.Store, *ssa.FieldAddr, *ssa.UnOp, *ssa.ChangeInterface:
+						continue
+					}
+				}
+			}
+			break
+		}
+		if !ok {
+			o := e.oblige(st, "order", fmt.Sprintf("return-after %s", e.anchor(in.Pos(), a)), "false", in.Pos())
+			if o != nil {
+				o.Detail = "the function must return right after this call"
+			}
+		}
+	}
+}
+
 func (e *Enc) encodeBlock(fr *frame, b *ssa.BasicBlock, st *bstate) {
 	for idx, in := range b.Instrs {
 		if !fr.inlined {
@@ -547,6 +600,9 @@ func (e *Enc) encodeBlock(fr *frame, b *ssa.BasicBlock, st *bstate) {
 		switch in.(type) {
 		case *ssa.Return, *ssa.Call, *ssa.Store, *ssa.MapUpdate, *ssa.BinOp:
 			e.assertsAt(fr, b, idx, in, st)
+			e.thenReturns(fr, b, idx, in, st)
+		case *ssa.UnOp:
+			e.assertsAt(fr, b, idx, in, st) // only anchors that ask for it ("unop:...") match a unary operation
 		}
 		switch x := in.(type) {
 		case *ssa.Phi, *ssa.DebugRef:
